@@ -22,6 +22,7 @@ import (
 	"github.com/markusressel/fan2go/internal/hwmon"
 	"github.com/markusressel/fan2go/internal/persistence"
 	"github.com/markusressel/fan2go/internal/sensors"
+	"github.com/markusressel/fan2go/internal/simhook"
 	"github.com/markusressel/fan2go/internal/statistics"
 	"github.com/markusressel/fan2go/internal/ui"
 	"github.com/oklog/run"
@@ -158,6 +159,7 @@ func RunDaemon() {
 	{
 		sig := make(chan os.Signal, 1)
 		signal.Notify(sig, os.Interrupt, syscall.SIGTERM, syscall.SIGINT)
+		simhook.SignalChan(sig)
 
 		g.Add(func() error {
 			<-sig
